@@ -275,3 +275,54 @@ def register(models):
     models[r'^<std::iter::(Map|Filter|FilterMap|Copied|Cloned|Inspect)<.*> as std::iter::Iterator>::next$'] = m_adaptor_next
     models[r'^<I as std::iter::IntoIterator>::into_iter$'] = m_into_iter_identity
     models[r'(^std::iter::Iterator::|as std::iter::Iterator>::)(' + '|'.join(CONSUMERS) + r')$'] = m_consumer
+
+
+# ------------------------------------------------------------------------------------------------ opt-in: vectors as finite lists
+def vec_models():
+    """models=vec_models(): `Vec::new`/`push`/`collect` build a finite list value Agg('vec', [elements]), so that a filter written as
+    an iterator chain ending in collect() and the same filter written as a `for` loop with push() yield the same result value.
+    Opt-in, because most rules designate Vec<u8> operations as effects and rely on their havoc naming."""
+    def unit():
+        return F.Agg('tuple', None, [])
+
+    def m_new(I, st, fr, t, args, name):
+        if not (t.get('dest_ty') or '').startswith('std::vec::Vec<'):
+            return NotImplemented
+        return F.Agg('vec', None, [])
+
+    def target(I, st, a):
+        if isinstance(a, F.Ref):
+            v = I.resolve(st, I.read_cell_path(st, a.cell, a.proj))
+            return v if isinstance(v, F.Agg) and v.adt == 'vec' else None
+        return None
+
+    def m_push(I, st, fr, t, args, name):
+        v = target(I, st, args[0])
+        if v is None:
+            return NotImplemented
+        v.fields.append(args[1])
+        return unit()
+
+    def m_len(I, st, fr, t, args, name):
+        v = target(I, st, args[0])
+        if v is None:
+            return NotImplemented
+        return F.Const(len(v.fields)) if name.endswith('::len') else F.Const(len(v.fields) == 0)
+
+    def m_collect(I, st, fr, t, args, name):
+        if not (t.get('dest_ty') or '').startswith('std::vec::Vec<'):
+            return NotImplemented
+        itv = _val(I, st, args[0])
+        if isinstance(itv, (F.Unknown, F.Const)):
+            return NotImplemented
+
+        def loop(s, acc, n):
+            return iter_next(I, s, itv, n, lambda s2, x, n2: loop(s2, acc + [x], n2),
+                             lambda s2, n2: I.ret(s2, s2.frames[-1], t, F.Agg('vec', None, list(acc))), t['line'])
+        return _top(I, st, lambda s: loop(s, [], 0))
+    return {
+        r'^std::vec::Vec::<T>::(new|with_capacity)$': m_new,
+        r'^std::vec::Vec::<T, A>::push$': m_push,
+        r'^std::vec::Vec::<T, A>::(len|is_empty)$': m_len,
+        r'(^std::iter::Iterator::|as std::iter::Iterator>::)collect$': m_collect,
+    }
